@@ -202,7 +202,10 @@ def declare(reg):
                   "self.last_resync", "self.mtime", "self.optional_resync", "self.msg_keys", "self.uids", "self.num_msgs", "self.num_recent", "self.sequences", "self.next_uid",
                   "self._msg_key_to_idx", "self._uid_to_idx", "self.attributes", "MH.g_seqs", "MH.g_keys", "MH.g_content", "*.pending_notifications", "ClientProxy.g_out",
                   "self.g_db_seqs", "self.g_db_exists", "self.g_db_uid_vv", "self.g_db_next_uid", "self.g_db_uids", "self.g_db_msg_keys", "self.g_db_subscribed", "self.g_db_num_msgs"],
-        ghost={"assume_pre_of": ["_pack_if_necessary", "check_new_msgs_and_flags", "msg_set_to_msg_seq_set"]},
+        ghost={"assume_pre_of": ["_pack_if_necessary", "check_new_msgs_and_flags", "msg_set_to_msg_seq_set"],
+               # the wake-up obligation must not depend on what the resync found: in particular not on "the mailbox only grows" (E1),
+               # which would make the second message-set resolution infallible and its BAD branch dead
+               "forget_post_of": {"check_new_msgs_and_flags": "*"}},
         is_async=True,
         props=["C06"],
         note="the preconditions of the resync/pack callees (environment assumption E1, Inv(Mailbox)) are assumed at their call sites here; "
